@@ -9,6 +9,7 @@ import (
 	"reflect"
 	"strconv"
 	"strings"
+	"time"
 )
 
 // ---------------------------------------------------------------- environment
@@ -162,6 +163,9 @@ func envOf0(id int) map[string]any {
 		"z10": "010", "z08": "08", "z007": "007", "z0s": "0",
 		"hx": "0x10", "und": "1_000", "b11": "0b11", "o7": "0o7", "lsp": " 42", "isp": "4 2",
 		"t": r.t, "u": r.u, "off": false,
+		// zero values of the sized / named numeric kinds (zero_test.go): a zero is a value, not absent
+		"z8": int8(0), "z16": int16(0), "z32": int32(0), "z64": int64(0), "zu": uint(0), "zu8": uint8(0), "zu64": uint64(0),
+		"zf32": float32(0), "zdur": time.Duration(0),
 		"big": int64(1234567),
 		// a value with a String method (printed through it, whatever way the data is delivered)
 		"sv": Tag{Key: "k" + r.who, N: r.k},
